@@ -17,7 +17,8 @@ ID = "C10"
 RULE = (
     "seeded (kernel spec, point set, hyper-parameters): SE/RQ/WhiteNoise/Heteroscedastic, sums of 2-4, change-points with "
     "2-4 kernels on any axis, sums containing change-points and change-points containing sums; 2-25 points in 1-3 "
-    "dimensions at scales 1e-2..1e2; all three mean functions; non-trivial = composite kernel or d >= 2; "
+    "dimensions at scales 1e-2..1e2; change-point regions with their own noise term; abrupt change-points (widths 1e-4.5..1e-2.8 of the range) in a "
+    "quarter of the change-point cases; all three mean functions, point by point and on all points in one call; non-trivial = composite kernel or d >= 2; "
     "distinct = distinct (spec, points, theta)"
 )
 ASSUMPTIONS = ["hyper-parameter gradients are compared with Richardson central differences of the real builder at 1e-6 of the matrix scale"]
